@@ -2136,7 +2136,7 @@ namespace bxdecay0 {
         } else if (name_starts_with(chnuclide_, "Sb126")) {
         } else if (name_starts_with(chnuclide_, "Sb133")) {
         } else if (name_starts_with(chnuclide_, "Sr90")) {
-        } else if (name_starts_with(chnuclide_, "Ta180m")) { // 'Ta180m-B-' and 'Ta180m-EC' 
+        } else if (name_starts_with(chnuclide_, "Ta180m-B-") || name_starts_with(chnuclide_, "Ta180m-EC")) {
         } else if (name_starts_with(chnuclide_, "Ta182")) {
         } else if (name_starts_with(chnuclide_, "Te133m")) {
         } else if (name_starts_with(chnuclide_, "Te133")) {
